@@ -4,7 +4,8 @@
 //   W: REAL waitable_atomic<bool>::wait(true, 0, relaxed) past its spinning phase [timed_spin_wait_until cut: "time is up"] ->
 //      r1::wait_on_address -> monitor.wait<sleep_node>(pred, ctx): prepare_wait (wait-set insertion under the real concurrent_monitor_mutex, then
 //      atomic_fence_seq_cst) -> predicate re-check (load of the mutex word) -> commit_wait | cancel_wait
-// Cut: get_address_waiter (one slot), binary_semaphore::P/V (one-flag stub), timed_spin_wait_until.
+// Cut: get_address_waiter (one slot), binary_semaphore::P/V (one-flag stub), timed_spin_wait_until, concurrent_monitor_mutex::lock/unlock (plain lock
+// whose acquire/release are full fences, as the real locked exchanges are).
 #include "src/tbb/address_waiter.cpp"
 #include "oneapi/tbb/mutex.h"
 using namespace tbb::detail;
